@@ -78,7 +78,16 @@ async fn paired(a: &ShardArgs, idx: u64) {
         1 => r.range(0, 1_000_000),
         2 => 1_600_000_000_000 + r.below(1_000_000_000),
         // close to the 48-bit limit: the clock itself still fits when it is read, what is derived from it may not
-        3 | 4 => (MAX48 - t_read).saturating_sub(r.range(0, f + b + 5)),
+        3 => (MAX48 - t_read).saturating_sub(r.range(0, f + b + 5)),
+        // the value to be written lands exactly on the last 48-bit value, or one to either side of it
+        4 => {
+            let add = match procedure {
+                1 => (f + b) / 2,
+                0 => f + b,
+                _ => 0,
+            };
+            (MAX48 - t_read).saturating_sub(add).saturating_sub(1) + r.range(0, 2)
+        }
         _ => r.u64() & MAX48 >> 1,
     };
     let no_time = r.chance(1, 25);
@@ -683,12 +692,21 @@ async fn outstation_side(a: &ShardArgs, idx: u64) {
             }
             1 => {
                 // WRITE g50v3
-                let v: u64 = match r.below(4) {
-                    0 => MAX48 - r.range(0, 80_000),
-                    1 => MAX48,
-                    2 => 0,
+                let v: u64 = match (r.below(7), recorded_at) {
+                    (0, _) => MAX48 - r.range(0, 80_000),
+                    (1, _) => MAX48,
+                    (2, _) => 0,
+                    // the sum lands exactly on the last 48-bit value, or one beyond it
+                    (3, Some(t0)) | (4, Some(t0)) => MAX48.saturating_sub(now - t0),
+                    (5, Some(t0)) => MAX48.saturating_sub(now - t0).saturating_add(1).min(MAX48),
                     _ => r.u64() & (MAX48 >> 1),
                 };
+                // a fraction of a millisecond more has elapsed when the WRITE arrives (whole milliseconds are what counts)
+                let frac_us = if r.bool() { r.range(1, 999) } else { 0 };
+                if frac_us > 0 {
+                    tokio::time::advance(std::time::Duration::from_micros(frac_us)).await;
+                    out::count("C_sub_millisecond_elapsed", 1);
+                }
                 let rx = sim
                     .request(
                         &ra::B::request(ra::F_WRITE, seq)
@@ -696,6 +714,10 @@ async fn outstation_side(a: &ShardArgs, idx: u64) {
                             .done(),
                     )
                     .await;
+                if frac_us > 0 {
+                    // back onto the millisecond grid
+                    tokio::time::advance(std::time::Duration::from_micros(1000 - frac_us)).await;
+                }
                 let frag = rx
                     .iter()
                     .filter_map(|x| x.fragment())
@@ -745,6 +767,9 @@ async fn outstation_side(a: &ShardArgs, idx: u64) {
                             recorded_at = None;
                         } else {
                             out::count("C_recorded_plus_elapsed_ok", 1);
+                            if want == MAX48 as u128 {
+                                out::count("C_sum_exactly_at_48_bit_limit_ok", 1);
+                            }
                             if now - t0 > 65_535 {
                                 out::count("C_elapsed_beyond_16_bits_ok", 1);
                             }
